@@ -290,6 +290,48 @@ def phases(ctx, uberjob, MemStore, Trunc, check_chain):
         import copy
         return [("", r), ("/registry.copy()", r.copy()), ("/copy.copy(registry)", copy.copy(r))]
 
+    # a stored LITERAL (plan.lit / a gather of constants, then registry.add) whose store fails on write or on read-back: the failing call
+    # is the store call and its traceback starts at the registry.add line
+    for lit_kind in ("lit", "gather-of-constants"):
+        for fail in ("write", "read"):
+            p, r = uberjob.Plan(), uberjob.Registry()
+            node = p.lit(5) if lit_kind == "lit" else p.gather([1, 2])
+            st_ = MemStore(5 if fail == "read" else None, fail=fail)
+            if fail == "read":
+                import datetime as _dt
+                st_.t = _dt.datetime(2020, 1, 1)
+            r.add(node, st_); la = here()
+            use = p.call(ok, node)
+            try:
+                uberjob.run(p, registry=r, output=use, progress=None)
+                ctx.broke("C19 harness: stored-literal scenario did not fail", (lit_kind, fail))
+            except uberjob.CallError as e:
+                expect("stored-literal/%s/%s" % (lit_kind, fail), "stored_literal", e, lambda c: getattr(c.fn, "__name__", "") == fail, la)
+            except Exception as e:      # noqa
+                ctx.fail("phase:stored_literal:error", "a stored literal (%s) whose store fails on %s: run raised %s instead of CallError" % (lit_kind, fail, type(e).__name__), {"literal": lit_kind, "fail": fail})
+    # ONE store object given to registry.source twice (the second time inside a helper): a failing read reached through the second
+    # source node is attributed to the SECOND registry.source line
+    def load_reference(plan_, reg_, store_):
+        n_ = reg_.source(plan_, store_); return n_, here()
+    for which in ("second only", "both"):
+        p, r = uberjob.Plan(), uberjob.Registry()
+        st_ = MemStore(3, fail="read")
+        import datetime as _dt
+        st_.t = _dt.datetime(2020, 1, 1)
+        first = r.source(p, st_); l1 = here()
+        second, l2 = load_reference(p, r, st_)
+        out = p.call(ok, second) if which == "second only" else p.call(lambda x, y: 0, first, second)
+        try:
+            uberjob.run(p, registry=r, output=out, progress=None, max_workers=1)
+            ctx.broke("C19 harness: double-source scenario did not fail", which)
+        except uberjob.CallError as e:
+            sf = e.call.stack_frame
+            head = (sf.name, sf.path, sf.line) if sf is not None and sf is not Trunc else None
+            ctx.case(("phase", "double-source/" + which))
+            allowed = [l2] if which == "second only" else [l1, l2]
+            if head not in allowed:
+                ctx.fail("phase:double_source:head", "one store object sourced on two lines, output depends on %s: the failing read is attributed to %r, expected %r" % (which, head, allowed),
+                         {"which": which, "head": head, "expected": allowed})
     # run phase, plain call
     p = uberjob.Plan()
     a = p.call(ok, 1)
